@@ -95,11 +95,11 @@ theorem spec_retainStep_held (s : Spec.Broker.S) (p : Pub) : (Spec.Broker.retain
 
 theorem spec_retainStep_frame (s : Spec.Broker.S) (p : Pub) :
     (Spec.Broker.retainStep s p).held = s.held ∧ (Spec.Broker.retainStep s p).stored = s.stored ∧
-    (Spec.Broker.retainStep s p).conns = s.conns ∧ (Spec.Broker.retainStep s p).overlap = s.overlap := by
+    (Spec.Broker.retainStep s p).conns = s.conns := by
   unfold Spec.Broker.retainStep
   split
-  · exact ⟨rfl, rfl, rfl, rfl⟩
-  · split <;> exact ⟨rfl, rfl, rfl, rfl⟩
+  · exact ⟨rfl, rfl, rfl⟩
+  · split <;> exact ⟨rfl, rfl, rfl⟩
 
 theorem spec_accept_fst (s : Spec.Broker.S) (p : Pub) : (Spec.Broker.accept s p).1 = Spec.Broker.retainStep s p := rfl
 
